@@ -8,7 +8,7 @@ import ast
 from fractions import Fraction
 
 from ..algebra import Converter, Expr, NotAlgebraic
-from ..astutil import U, view, arg_or_kw, kwarg, names_in, stmt_index, compare_parts
+from ..astutil import aliases, U, view, arg_or_kw, kwarg, names_in, stmt_index, compare_parts
 from ..cfg import walk_no_nested
 from ..dim import DimEval, Unit, LEN, L, ONE, Obj
 from ..model import dotted
@@ -243,6 +243,15 @@ def check_merge(ctx):
             v = U(c.args[0].elts[0])
             if v in ("0", "-1"):
                 side[U(c.func.value)] = "low" if v == "0" else "high"
+        # comprehension form: L = [[0] if a == ax else <range> for a in axes]
+        if isinstance(c, (ast.Assign, ast.AnnAssign)) and isinstance(c.value, ast.ListComp) and isinstance(c.value.elt, ast.IfExp):
+            tgt = c.targets[0] if isinstance(c, ast.Assign) else c.target
+            ie = c.value.elt
+            cpt = compare_parts(ie.test)
+            if isinstance(tgt, ast.Name) and cpt is not None and isinstance(cpt[1], (ast.Eq, ast.NotEq)) and axv in (U(cpt[0]), U(cpt[2])):
+                on_ax = ie.body if isinstance(cpt[1], ast.Eq) else ie.orelse
+                if isinstance(on_ax, ast.List) and len(on_ax.elts) == 1 and U(on_ax.elts[0]) in ("0", "-1"):
+                    side[tgt.id] = "low" if U(on_ax.elts[0]) == "0" else "high"
     zl = [s for s in ast.walk(lp) if isinstance(s, ast.For) and isinstance(s.iter, ast.Call) and dotted(s.iter.func) == "zip" and len(s.iter.args) == 2]
     idx_side = {}
     if zl and isinstance(zl[0].target, ast.Tuple) and len(zl[0].target.elts) == 2:
@@ -354,13 +363,17 @@ def check_merge(ctx):
             if mm:
                 ranges.append((n, mm.group(1)))
     axis_vars = set()
+    axis_iter = {}  # temporaries naming the axis range
+    for x in fv.statements():
+        if isinstance(x, ast.Assign) and isinstance(x.targets[0], ast.Name) and U(x.value).startswith("range("):
+            axis_iter[x.targets[0].id] = x.value
     for n in ast.walk(lp):
         tgt = it = None
         if isinstance(n, ast.For) and n is not lp:
             tgt, it = n.target, n.iter
         elif isinstance(n, ast.comprehension):
             tgt, it = n.target, n.iter
-        if tgt is not None and isinstance(tgt, ast.Name) and U(it) in ("range(grid.num_axes)", "range(len(grid.shape))", "range(grid.dim)", "range(mask.data.ndim)", "range(labels.ndim)"):
+        if tgt is not None and isinstance(tgt, ast.Name) and U(axis_iter.get(it.id, it) if isinstance(it, ast.Name) else it) in ("range(grid.num_axes)", "range(len(grid.shape))", "range(grid.dim)", "range(mask.data.ndim)", "range(labels.ndim)"):
             axis_vars.add(tgt.id)
     if not ranges or not axis_vars:
         ctx.undecided("MERGE", site + ":boundary", (fi, lp), "enumeration of the boundary points not recognised")
@@ -370,19 +383,35 @@ def check_merge(ctx):
                    "the two boundary faces are enumerated over the full index range of every transverse axis (its own length)",
                    f"`{U(badr[0][0]) if badr else ''}` enumerates a transverse axis with the length of axis `{badr[0][1] if badr else ''}`: on grids whose axes have different "
                    "lengths parts of the periodic boundary are never examined (clusters touching there are not merged and are reported twice) or the index runs out of bounds")
-    # ---- merge condition: both labels non-zero and different
-    conds = [s for s in ast.walk(lp) if isinstance(s, ast.If) and any(x is ms for x in ast.walk(s))]
-    okc = False
-    if conds:
-        from ..astutil import flat_tests
+    # ---- merge condition: both labels non-zero and different (decided as a truth table over small integer labels,
+    # so that any equivalent spelling — guard clause, De Morgan, flipped comparisons — is the same condition)
+    from ..astutil import mini_eval
 
-        parts = {U(res(t, conds[-1])) for t, p in flat_tests(conds[-1].test) if p}
-        labs = sorted({f"labels[{iv}]" for iv in idx_side})
-        if len(labs) == 2:
-            a, b = labs
-            okc = parts in ({f"{a} > 0", f"{b} > 0", f"{a} != {b}"}, {f"{a} > 0", f"{b} > 0", f"{b} != {a}"})
-    ctx.decide(okc, "MERGE", site + ":condition", (fi, conds[-1]) if conds else (fi, lp), "two different non-background labels facing each other across the boundary are merged",
-               "merge condition is not (both labels non-zero and different)")
+    zloop = zl[0] if zl else lp
+    labs = sorted({f"labels[{iv}]" for iv in idx_side})
+    okc, why = None, ""
+    if len(labs) == 2:
+        guards = [(t, p) for t, p in si.effective_guards(ms) if any(x is t for x in ast.walk(zloop))]
+        exprs = []
+        for t, p in guards:
+            txt = U(res(t, ms))
+            for k_, lab in enumerate(labs):
+                txt = txt.replace(lab, "AB"[k_])
+            exprs.append((txt, p))
+        try:
+            table = {}
+            for A in (0, 1, 2):
+                for B in (0, 1, 2):
+                    table[(A, B)] = all(bool(mini_eval(ast.parse(txt, mode="eval").body, {"A": A, "B": B})) == p for txt, p in exprs)
+            okc = all(v == (A > 0 and B > 0 and A != B) for (A, B), v in table.items()) and bool(exprs)
+            why = f"conditions {exprs}"
+        except Exception as exc:  # unknown names in the guard: not decidable here
+            okc, why = None, f"guard not evaluable ({type(exc).__name__}): {exprs}"
+    if okc is None:
+        ctx.undecided("MERGE", site + ":condition", (fi, ms), why or "labels on the two faces not identified")
+    else:
+        ctx.decide(okc, "MERGE", site + ":condition", (fi, ms), "two different non-background labels facing each other across the boundary are merged (truth table over labels 0, 1, 2)",
+                   f"merge condition is not (both labels non-zero and different): {why}")
 
 
 def check_cylindrical(ctx):
@@ -391,27 +420,34 @@ def check_cylindrical(ctx):
     fv = view(m, fi)
     si = stmt_index(fv)
     site = CYL
-    # WINDOW
-    tests = [s for s in fv.statements() if isinstance(s, ast.If) and isinstance(s.test, ast.Compare) and len(s.test.ops) == 2]
-    ok, where = False, fi
-    detail = "no chained window test"
-    if tests:
-        t = tests[0].test
-        where = tests[0]
-        ops = tuple(type(o) for o in t.ops)
-        lo, mid, hi = (U(fv.expand(x, tests[0], allow_mutated=True, stop=("grid", "mask"))) for x in (t.left, t.comparators[0], t.comparators[1]))
-        okb = (lo, hi) in (("grid.axes_bounds[1][0]", "grid.axes_bounds[1][1]"), ("mask.grid.axes_bounds[1][0]", "mask.grid.axes_bounds[1][1]"))
-        half_open = ops in ((ast.LtE, ast.Lt),)
-        ok = okb and half_open and mid.endswith(".position[2]")
-        detail = f"`{U(t)}`"
-        if okb and not half_open:
-            ctx.violate("WINDOW", site, (fi, tests[0]),
-                        f"the window {detail} that selects one periodic image is closed on both sides: a droplet centred exactly on the periodic boundary is kept twice (at z_min and at z_max)"
-                        if ops == (ast.LtE, ast.LtE) else f"the window {detail} is not the half-open interval [z_min, z_max): a droplet centred exactly on the periodic boundary is dropped or kept at the wrong end")
-            ok = None
-    if ok is not None:
-        ctx.decide(bool(ok), "WINDOW", site, (fi, where), "exactly one periodic image is kept: z_min ≤ z < z_max with the bounds of the periodic axis",
-                   f"window test {detail} is not the half-open interval of grid.axes_bounds[1]")
+    # WINDOW: the condition under which a shifted candidate is kept, in canonical form (chained or split comparisons,
+    # temporaries and guard clauses are the same condition)
+    from ..astutil import canon_guards, canon_tests
+
+    keeps = [c for c in fv.calls() if isinstance(c.func, ast.Attribute) and c.func.attr == "append" and si.enclosing(c, (ast.For,)) is not None]
+    shifted = [s for s in fv.statements() if isinstance(s, ast.AugAssign) and isinstance(s.op, ast.Sub) and U(s.target).endswith(".position[2]")]
+    keeps = [c for c in keeps if shifted and si.enclosing(c, (ast.For,))[0] is (si.enclosing(shifted[0], (ast.For,)) or (None,))[0]]
+    if len(keeps) != 1:
+        ctx.undecided("WINDOW", site, fi, "the loop keeping the central periodic image was not found")
+    else:
+        kp = keeps[0]
+        lp_ = si.enclosing(kp, (ast.For,))[0]
+        zexpr = U(shifted[0].target)
+        stop_names = ("grid", "mask", U(lp_.target))
+        conds = set()
+        for t, p in si.effective_guards(kp):
+            if not any(x is t for x in ast.walk(lp_)):
+                continue
+            conds.update(canon_tests(fv.expand(t, kp, allow_mutated=True, stop=stop_names), p))
+        lo_ok = [("grid.axes_bounds[1][0]", "mask.grid.axes_bounds[1][0]"), ("grid.axes_bounds[1][1]", "mask.grid.axes_bounds[1][1]")]
+        want = [{(f"{lo} <= {zexpr}", True), (f"{zexpr} < {hi}", True)} for lo in lo_ok[0] for hi in lo_ok[1]]
+        closed = [{(f"{lo} <= {zexpr}", True), (f"{zexpr} <= {hi}", True)} for lo in lo_ok[0] for hi in lo_ok[1]]
+        if conds in want:
+            ctx.hold("WINDOW", site, (fi, kp), "exactly one periodic image is kept: z_min ≤ z < z_max with the bounds of the periodic axis")
+        elif conds in closed:
+            ctx.violate("WINDOW", site, (fi, kp), f"the window {sorted(conds)} that selects one periodic image is closed on both sides: a droplet centred exactly on the periodic boundary is kept twice (at z_min and at z_max)")
+        else:
+            ctx.violate("WINDOW", site, (fi, kp), f"window test {sorted(conds)} is not the half-open interval [z_min, z_max) of grid.axes_bounds[1]: a droplet centred exactly on the periodic boundary is dropped or kept at the wrong end")
     # PADSHIFT: pad (cells) / dim_z == shift / grid.length
     pads = [c for c in fv.calls() if (fv.callee(c) or "").endswith("numpy.pad")]
     shifts = [s for s in fv.statements() if isinstance(s, ast.AugAssign) and isinstance(s.op, ast.Sub) and U(s.target).endswith(".position[2]")]
@@ -447,9 +483,9 @@ def check_cylindrical(ctx):
     else:
         ctx.undecided("PADSHIFT", site, fi, "padding / shift statements not found")
     # periodic branch condition and the spanning signal handling
-    conds = [s for s in fi.node.body if isinstance(s, ast.If)]
-    okc = bool(conds) and U(conds[0].test) == "grid.periodic[1]"
-    ctx.decide(okc, "WINDOW", site + ":branch", (fi, conds[0]) if conds else fi, "padding is used exactly for a periodic z axis", "the periodic treatment is not selected by grid.periodic[1]")
+    padg = canon_guards(si, pads[0], expand=lambda t, at: fv.expand(t, pads[0], allow_mutated=True, stop=("grid", "mask"))) if pads else None
+    okc = padg in ({("grid.periodic[1]", True)}, {("mask.grid.periodic[1]", True)})
+    ctx.decide(okc, "WINDOW", site + ":branch", (fi, pads[0]) if pads else fi, "padding is used exactly for a periodic z axis", "the periodic treatment is not selected by grid.periodic[1]")
     # on-axis selection and volumes in the single-grid helper
     h = m.func(CYL1)
     hv = view(m, h)
@@ -482,23 +518,54 @@ def check_cylindrical(ctx):
     ctx.decide(ok_sel, "FLOW", CYL1 + ":on-axis", (h, app[0]) if app else h, "exactly the clusters containing the symmetry axis (radial slice starts at 0) are located, identified by their 1-based label",
                "the list of located clusters is not filled with the (1-based) label of exactly those clusters whose radial slice starts at 0")
     vol = [c for c in hv.calls() if (hv.callee(c) or "") in ("scipy.ndimage.sum_labels", "scipy.ndimage.sum")]
-    okv = bool(vol) and all(U(c.args[0]) == "cell_volumes" and U(c.args[1]) == "labels" and U(kwarg(c, "index")) == "indices" for c in vol)
-    cvn = [s for s in hv.statements() if isinstance(s, ast.Assign) and U(s.targets[0]) == "cell_volumes"]
-    okcv = len(cvn) == 1 and U(hv.expand(cvn[0].value, cvn[0])).replace(" ", "") in ("np.outer(grid.cell_volume_data[0],grid.cell_volume_data[1])",)
-    ctx.decide(okv and okcv, "DIM", CYL1 + ":volume", (h, vol[0]) if vol else h, "cluster volume = Σ of the cylindrical cell volumes (outer(vol_r, dz)) over the cluster's cells",
+    stops = ("labels", "indices", "grid", "mask")
+
+    def ex_(a, at):
+        return U(hv.expand(a, at, allow_mutated=True, stop=stops)).replace(" ", "") if a is not None else None
+
+    okv = bool(vol) and all(len(c.args) >= 2 and ex_(c.args[0], c) == "np.outer(grid.cell_volume_data[0],grid.cell_volume_data[1])" and ex_(c.args[1], c) == "labels"
+                            and ex_(kwarg(c, "index") or (c.args[2] if len(c.args) > 2 else None), c) == "indices" for c in vol)
+    ctx.decide(okv, "DIM", CYL1 + ":volume", (h, vol[0]) if vol else h, "cluster volume = Σ of the cylindrical cell volumes (outer(vol_r, dz)) over the cluster's cells",
                "cluster volumes on cylindrical grids are not the per-label sum of np.outer(*grid.cell_volume_data)")
+    # names of the per-cluster position and volume sequences
+    vol_names = set()
+    for c in vol:
+        st_ = hsi.statement(c)
+        if isinstance(st_, ast.Assign) and isinstance(st_.targets[0], ast.Name):
+            vol_names |= aliases(hv, st_.targets[0].id)
+    pos_names = set()
+    for s_ in hv.statements():
+        if isinstance(s_, ast.Assign) and isinstance(s_.targets[0], ast.Name) and isinstance(s_.value, ast.Call) and isinstance(s_.value.func, ast.Attribute) and s_.value.func.attr == "transform":
+            pos_names |= aliases(hv, s_.targets[0].id)
     cons = [c for c in hv.calls(nested=True) if U(c.func).endswith("from_volume")]
     okk = False
-    if len(cons) == 1:
+    if len(cons) == 1 and len(cons[0].args) == 2:
         gen = None
         for n in ast.walk(h.node):
             if isinstance(n, (ast.GeneratorExp, ast.ListComp)) and any(x is cons[0] for x in ast.walk(n)):
                 gen = n
-        if gen is not None and len(gen.generators) == 1 and isinstance(gen.generators[0].target, ast.Tuple) and U(gen.generators[0].iter) == "zip(pos, vol)":
-            pv, vv = (U(e) for e in gen.generators[0].target.elts)
-            okk = U(cons[0].args[0]).replace(" ", "") in (f"np.array([0,0,{pv}[2]])", f"np.array([0.0,0.0,{pv}[2]])") and U(cons[0].args[1]) == vv
+        elem = {}  # text of "the k-th element of sequence S" -> S
+        if gen is not None and len(gen.generators) == 1 and not gen.generators[0].ifs:
+            g = gen.generators[0]
+            if isinstance(g.target, ast.Tuple) and isinstance(g.iter, ast.Call) and dotted(g.iter.func) == "zip" and len(g.iter.args) == len(g.target.elts):
+                for tv, seq in zip(g.target.elts, g.iter.args):
+                    elem[U(tv)] = U(seq)
+            elif isinstance(g.target, ast.Name) and isinstance(g.iter, ast.Call) and dotted(g.iter.func) == "range" and len(g.iter.args) == 1:
+                bound = U(g.iter.args[0]).replace(" ", "")
+                seqs = {n_.value.id for n_ in ast.walk(gen.elt) if isinstance(n_, ast.Subscript) and isinstance(n_.value, ast.Name) and U(n_.slice) == g.target.id}
+                okb = bound in {f"len({a})" for a in seqs} | {f"min(len({a}),len({b}))" for a in seqs for b in seqs if a != b}
+                if okb:
+                    for a in seqs:
+                        elem[f"{a}[{g.target.id}]"] = a
+        ptxt, vtxt = U(cons[0].args[0]).replace(" ", ""), U(cons[0].args[1]).replace(" ", "")
+        for e_txt, seq in elem.items():
+            e_ = e_txt.replace(" ", "")
+            if seq in pos_names and ptxt in (f"np.array([0,0,{e_}[2]])", f"np.array([0.0,0.0,{e_}[2]])"):
+                for e2, seq2 in elem.items():
+                    if seq2 in vol_names and vtxt == e2.replace(" ", ""):
+                        okk = True
     ctx.decide(okk, "FLOW", CYL1 + ":construct", (h, cons[0]) if cons else h, "droplets sit on the axis at the cluster's z (cartesian) with the cluster's volume",
-               "droplets are not built as from_volume([0, 0, z_cluster], volume_cluster)")
+               "droplets are not built as from_volume([0, 0, z_cluster], volume_cluster) from the same cluster's position and volume")
 
 
 def check_spherical(ctx):
